@@ -45,7 +45,8 @@ SOURCES = {
     'c07': (gen_lat.build_hex, ['regular-6', 'irregular-8']),
     'dup': (None, ['cards', 'by-transform', 'near', 'hostile-opposite',
                    'hostile-many', 'empty-filler-shared',
-                   'torus-rotated-same-centre', 'helper-plane-collision']),
+                   'torus-rotated-same-centre', 'helper-plane-collision',
+                   'near-6digits']),
 }
 _PER = {'quick': 2, 'thorough': 60}
 FLAGS = ['--skip-deduplication', '--always-inline-filling',
@@ -114,6 +115,8 @@ def build_dup(rng, fam):
         return gen_hostile.build(rng, fam)
     if fam == 'torus-rotated-same-centre':
         return build_torus_pair(rng)
+    if fam == 'near-6digits':
+        return build_near_pairs(rng)
     deck = M.Deck(f'C13 dup {fam}')
     deck.world = 12.0
     pos = rnd(rng, -2, 2)
@@ -151,6 +154,49 @@ def build_dup(rng, fam):
     deck.surfs.append(M.Surf(WORLD_SURF, 'so', [deck.world]))
     deck.cells.append(M.Cell(900, mat=0, geom=M.S(WORLD_SURF), imp={'n': '0'}))
     deck.tags.add(f'dup.{fam}')
+    return deck
+
+
+def build_near_pairs(rng):
+    '''Thin foils and gaps on large objects: pairs of surfaces of the same
+    kind whose parameters agree to more than six significant digits but are
+    different surfaces, with a cell in the gap.'''
+    import numpy as np
+    deck = M.Deck('C13 dup near-6digits')
+    deck.world = 400.0
+    rad = round(rng.uniform(200, 300), 1)
+    pos = round(rng.uniform(100, 150), 1)
+    cyl = round(rng.uniform(60, 90), 1)
+    gaps = [round(rng.uniform(2e-4, 9e-4), 5) for _ in range(3)]
+    deck.surfs += [M.Surf(1, 'so', [rad]), M.Surf(2, 'so', [rad + gaps[0]]),
+                   M.Surf(3, 'pz', [pos]), M.Surf(4, 'pz', [pos + gaps[1]]),
+                   M.Surf(5, 'cz', [cyl]),
+                   M.Surf(6, 'c/z', [0, 0, cyl + gaps[2]])]
+    geoms = [M.AND(M.S(-5), M.S(-3)),                      # inner cylinder
+             M.AND(M.S(5), M.S(-6), M.S(-3)),              # thin tube
+             M.AND(M.S(6), M.S(-1), M.S(-3)),              # rest below pz
+             M.AND(M.S(3), M.S(-4), M.S(-1)),              # thin slab
+             M.AND(M.S(4), M.S(-1)),                       # above
+             M.AND(M.S(1), M.S(-2))]                       # thin shell
+    for num, geom in enumerate(geoms, start=1):
+        deck.cells.append(M.Cell(num, mat=num, rho=f'-{num}.5', geom=geom,
+                                 imp={'n': '1'}))
+        deck.mats.append(M.Material(num, [('13027', '1')]))
+    deck.cells.append(M.Cell(900, mat=0, geom=M.S(2), imp={'n': '0'}))
+    hints = []
+    for _ in range(40):
+        vec = np.array([rng.gauss(0, 1) for _ in range(3)])
+        vec /= np.linalg.norm(vec)
+        hints.append(vec * (rad + gaps[0] / 2))
+        ang = rng.uniform(0, 6.28)
+        hints.append(np.array([(cyl + gaps[2] / 2) * np.cos(ang),
+                               (cyl + gaps[2] / 2) * np.sin(ang),
+                               rng.uniform(-50, pos - 1)]))
+        hints.append(np.array([rng.uniform(-40, 40), rng.uniform(-40, 40),
+                               pos + gaps[1] / 2]))
+    deck.hints = hints
+    deck.exact_hints = True
+    deck.tags.add('dup.near-6digits')
     return deck
 
 
